@@ -2,6 +2,7 @@ package main
 
 import (
 	"fmt"
+	"os"
 	"sort"
 	"strings"
 
@@ -41,6 +42,9 @@ func cmdTables(args []string) int {
 	pfx := ""
 	if mod != "Tables" {
 		pfx = mod[:1] + "_"
+	}
+	if os.Getenv("VH_TABLES_WARM") != "" {
+		warmTables()
 	}
 	kw, tags, attrs, events := lib.VerifTables()
 
@@ -151,4 +155,57 @@ func cmdTables(args []string) int {
 	writeJSON(jw, out)
 	jdone()
 	return 0
+}
+
+// respell returns spellings of a table key other than the shipped (upper-case) one.
+func respell(k string) []string {
+	lo := strings.ToLower(k)
+	mixed := []byte(lo)
+	for i := 0; i < len(mixed); i += 2 {
+		if mixed[i] >= 'a' && mixed[i] <= 'z' {
+			mixed[i] -= 32
+		}
+	}
+	return []string{lo, string(mixed), k}
+}
+
+// warmTables uses the detectors before the tables are read (VH_TABLES_WARM): every entry of the five
+// tables is looked up through the public API in its shipped, lower-case and mixed-case spelling, alone
+// and inside a statement / tag, so that a table that changes with use (memoised spellings, lazily
+// added or dropped entries) is dumped in its used state. Results are ignored; a panic is not caught
+// (it would be a C01 / C02 matter and fails this run as a tool failure).
+func warmTables() {
+	kw, tags, attrs, events := lib.VerifTables()
+	n := 0
+	for k := range kw {
+		body := k
+		if len(k) > 1 && k[0] == '0' {
+			body = k[1:] // fingerprint keys are probed by the blacklist itself; also try the bare text
+		}
+		for _, sp := range respell(body) {
+			for _, in := range []string{sp, "1 " + sp + " 1", "1' " + sp + " '1", sp + "(1)", "1;" + sp + " 1 -- "} {
+				lib.IsSQLi(in)
+				n++
+			}
+		}
+	}
+	for _, t := range tags {
+		for _, sp := range respell(t) {
+			lib.IsXSS("<" + sp + ">")
+			lib.IsXSS("<" + sp + " x=1>")
+			n += 2
+		}
+	}
+	for _, lst := range [][]lib.VerifNamed{attrs, events} {
+		for _, a := range lst {
+			for _, sp := range respell(a.Name) {
+				for _, pre := range []string{"", "on"} {
+					lib.IsXSS("<a " + pre + sp + "=javascript:1>")
+					lib.IsXSS(" " + pre + sp + "=1")
+					n += 2
+				}
+			}
+		}
+	}
+	fmt.Fprintf(os.Stderr, "tables: warmed with %d detector calls\n", n)
 }
